@@ -612,8 +612,10 @@ func (d *cnDriver) step() error {
 				sort.Strings(us)
 				if len(us) > 0 && d.rng.Intn(3) > 0 {
 					sp.Entity = us[d.rng.Intn(len(us))] // a user-run entity without nodes: nothing but the runtime keeps it from deregistering
-					d.deregSoon = append(d.deregSoon, sp.Entity)
 				}
+			}
+			if sp.Entity != "E1" {
+				d.deregSoon = append(d.deregSoon, sp.Entity, sp.Entity) // the new owner will try to deregister (twice: this block or later)
 			}
 			sp.Gov = "entity"
 		}
